@@ -184,7 +184,7 @@ class TwoTimeBathCorrelations(BaseAPIClass):
         corr_mat_dim = len(self._process_tensor)
         dt = self._process_tensor.dt
         last_time = corr_mat_dim * dt
-        tlist = np.arange(0, last_time+dt, dt)
+        tlist = np.arange(corr_mat_dim + 1) * dt
         if freq == 0:
             return tlist, np.ones(len(tlist),
                                   dtype=NpDtype) * (np.nan + 1.0j*np.nan)
